@@ -5,6 +5,8 @@ import ScriggoV.Spec.CutSpec
   `render <format> <hex>`  → `ok <hex>` | `err lex|unsupported|fuel|slice|…`   (Model/Cut.lean)
   `spec <format> <hex>`    → `ok <0|1> <hex>` | `err …`   (Spec/CutSpec.lean on the same tokens;
                               the flag says whether the source is in the class of the theorem)
+  `engine <format> <hex>`  → `ok <hex>` | `err …`   (Spec/CutSpec.lean `engineRender`: the rule with
+                              the engine's two extra line breaks; equals `render` for every source)
   `toks <format> <hex>`    → `ok <canonical token list>` | `err …`
   `endraw <marker-hex> <hex>` → `ok <index>` | `ok -1` | `err unsupported`   (endRawIndex) -/
 namespace ScriggoV.Drv.C15
@@ -32,6 +34,12 @@ def handle : List String → Option String
     match tokenize fmt (s.drop (shebangLen s)) with
     | .ok raws =>
       pure ("ok " ++ (if CutSpec.inClass raws then "1 " else "0 ") ++ toHex (CutSpec.specRender raws))
+    | .error e => pure ("err " ++ e.name)
+  | ["engine", f, h] => do
+    let fmt ← Format.ofName? f
+    let s ← fromHex h
+    match tokenize fmt (CutSpec.dropShebang s) with
+    | .ok raws => pure (okBytes (CutSpec.engineRender raws))
     | .error e => pure ("err " ++ e.name)
   | ["toks", f, h] => do
     let fmt ← Format.ofName? f
